@@ -6,7 +6,16 @@ use crate::Ctx;
 pub mod c15;
 pub mod c17;
 pub mod hist;
+pub mod c01;
 pub mod c03;
+pub mod c19;
+pub mod c13;
+pub mod c14;
+pub mod c16;
+pub mod c12;
+pub mod c11;
+pub mod c08;
+pub mod c07;
 pub mod c18;
 pub mod c10;
 pub mod c09;
@@ -24,7 +33,17 @@ pub struct Meta {
 pub fn run(ctx: &Ctx, col: &Collector) -> Meta {
     match ctx.id.as_str() {
         "C15" => c15::run(ctx, col),
+        "C01" | "C02" => c01::run(ctx, col),
         "C03" => c03::run(ctx, col),
+        "C19" => c19::run(ctx, col),
+        "C13" => c13::run(ctx, col),
+        "C17" => c17::run(ctx, col),
+        "C14" => c14::run(ctx, col),
+        "C16" => c16::run(ctx, col),
+        "C12" => c12::run(ctx, col),
+        "C11" => c11::run(ctx, col),
+        "C08" => c08::run(ctx, col),
+        "C07" => c07::run(ctx, col),
         "C18" => c18::run(ctx, col),
         "C10" => c10::run(ctx, col),
         "C09" => c09::run(ctx, col),
@@ -42,7 +61,17 @@ pub fn run(ctx: &Ctx, col: &Collector) -> Meta {
 pub fn replay(ctx: &Ctx, kind: &str, case: &serde_json::Value, col: &Collector) -> CheckResult {
     match ctx.id.as_str() {
         "C15" => c15::replay(kind, case, col),
+        "C01" | "C02" => c01::replay(ctx, kind, case, col),
         "C03" => c03::replay(kind, case, col),
+        "C19" => c19::replay(kind, case, col),
+        "C13" => c13::replay(kind, case, col),
+        "C17" => c17::replay(kind, case, col),
+        "C14" => c14::replay(kind, case, col),
+        "C16" => c16::replay(kind, case, col),
+        "C12" => c12::replay(kind, case, col),
+        "C11" => c11::replay(kind, case, col),
+        "C08" => c08::replay(kind, case, col),
+        "C07" => c07::replay(kind, case, col),
         "C18" => c18::replay(kind, case, col),
         "C10" => c10::replay(kind, case, col),
         "C09" => c09::replay(kind, case, col),
